@@ -14,7 +14,7 @@ from .proto import NC
 from .src import arg_names, unparse
 
 DO = "bempp_cl/api/assembly/discrete_boundary_operator.py"
-REPS = ("to_dense", "to_sparse", "get_diagonal", "A")
+REPS = ("to_dense", "to_sparse", "get_diagonal", "A", "_impl", "_values")
 
 
 def _path_term(st, env, cls, o, A, B):
@@ -53,6 +53,10 @@ def _term(n, cls, o, A, B, loc=None):
         return loc[n.id]
     if isinstance(n, ast.Call) and isinstance(n.func, ast.Attribute) and n.func.attr in ("copy", "astype") and (n.func.attr == "astype" or not n.args):
         return _term(n.func.value, cls, o, A, B, loc)  # the same matrix in fresh storage / another precision
+    if isinstance(n, ast.Call) and unparse(n.func).split(".")[-1] in ("asarray", "ascontiguousarray", "array", "asanyarray") and len(n.args) == 1:
+        return _term(n.args[0], cls, o, A, B, loc)
+    if isinstance(n, ast.Constant) and isinstance(n.value, (int, float)) and not isinstance(n.value, bool) and n.value == int(n.value):
+        return NC.const(int(n.value))
     if isinstance(n, ast.UnaryOp) and isinstance(n.op, ast.USub):
         return NC.const(-1) * _term(n.operand, cls, o, A, B, loc)
     if isinstance(n, ast.BinOp) and isinstance(n.op, (ast.Add, ast.Sub)):
